@@ -19,6 +19,7 @@ The direct oracle recomputes the Metropolis-Hastings probability with scipy dens
 from __future__ import annotations
 
 import math
+import os
 import random
 from fractions import Fraction
 from unittest import mock
@@ -431,15 +432,15 @@ def sample_params(rnd, fam, n):
 
 # (kernel, fam, n, iface, chol, mode, epoch, keys, decl, cases in quick tier, cases in thorough tier)
 PLAN = [
-    ("iwls", "qt", 1, "dict", "default", "forced", "post", "x", None, 10, 60),
-    ("iwls", "gs", 1, "dict", "default", "forced", "post", "x", None, 8, 40),
-    ("iwls", "lg", 1, "dict", "default", "forced", "post", "x", None, 8, 40),
-    ("iwls", "pois", 1, "dict", "default", "forced", "post", "x", None, 8, 40),
-    ("iwls", "qt", 1, "dict", "user", "forced", "post", "x", None, 8, 40),
+    ("iwls", "qt", 1, "dict", "default", "forced", "post", "x", None, 8, 60),
+    ("iwls", "gs", 1, "dict", "default", "forced", "post", "x", None, 6, 40),
+    ("iwls", "lg", 1, "dict", "default", "forced", "post", "x", None, 6, 40),
+    ("iwls", "pois", 1, "dict", "default", "forced", "post", "x", None, 6, 40),
+    ("iwls", "qt", 1, "dict", "user", "forced", "post", "x", None, 6, 40),
     ("iwls", "qt", 1, "dict", "default", "forced", "adapt", "x", None, 6, 24),
-    ("iwls", "qt", 1, "dict", "default", "free", "post", "x", None, 12, 60),
-    ("iwls", "nn", 1, "liesel", "default", "forced", "post", "x", None, 8, 40),
-    ("iwls", "pois", 1, "liesel", "default", "forced", "post", "x", None, 8, 40),
+    ("iwls", "qt", 1, "dict", "default", "free", "post", "x", None, 9, 60),
+    ("iwls", "nn", 1, "liesel", "default", "forced", "post", "x", None, 6, 40),
+    ("iwls", "pois", 1, "liesel", "default", "forced", "post", "x", None, 6, 40),
     ("iwls", "vg", 2, "dict", "default", "forced", "post", "x", None, 3, 18),
     ("iwls", "vp", 2, "dict", "default", "forced", "post", "x", None, 3, 18),
     ("iwls", "p2", 2, "dict", "default", "forced", "post", "x", None, 3, 18),
@@ -447,14 +448,14 @@ PLAN = [
     ("iwls", "vg", 3, "dict", "default", "forced", "post", "x", None, 1, 8),
     ("iwls", "vp", 3, "dict", "default", "forced", "post", "x", None, 2, 12),
     ("iwls", "vp", 3, "dict", "default", "free", "post", "ba", None, 6, 30),
-    ("rw", "qt", 1, "dict", "default", "forced", "post", "x", None, 8, 40),
+    ("rw", "qt", 1, "dict", "default", "forced", "post", "x", None, 6, 40),
     ("rw", "lg", 1, "dict", "default", "forced", "adapt", "x", None, 6, 24),
     ("rw", "vp", 2, "dict", "default", "forced", "post", "x", None, 6, 30),
-    ("rw", "vp", 3, "dict", "default", "free", "post", "ba", None, 12, 60),
+    ("rw", "vp", 3, "dict", "default", "free", "post", "ba", None, 9, 60),
     ("rw", "nn", 1, "liesel", "default", "forced", "post", "x", None, 6, 30),
-    ("mh", "gs", 1, "dict", "default", "forced", "post", "x", "ar", 8, 40),
-    ("mh", "qt", 1, "dict", "default", "forced", "post", "x", "lin", 8, 40),
-    ("mh", "qt", 1, "dict", "default", "free", "post", "x", "ar", 12, 60),
+    ("mh", "gs", 1, "dict", "default", "forced", "post", "x", "ar", 6, 40),
+    ("mh", "qt", 1, "dict", "default", "forced", "post", "x", "lin", 6, 40),
+    ("mh", "qt", 1, "dict", "default", "free", "post", "x", "ar", 9, 60),
 ]
 # at most this many accepted free-stream vector IWLS transitions get (expensive) R-lemmas
 FREE_VEC_CAP = {True: 2, False: 12}
@@ -531,11 +532,14 @@ def stratum(c):
 
 def generate(ctx):
     import numpy as np
+    import time
+    common.log(f"[C06] build + theorem re-check done at {time.time() - ctx.t0:.0f}s")
     rnd = random.Random(ctx.seed)
     cases = gen_cases(rnd, ctx.quick)
     run_cases(cases, jit=True, log=common.log)
+    common.log(f"[C06] kernels run (jit+vmap) at {time.time() - ctx.t0:.0f}s")
     # eager re-run of a sub-sample (no jit, no vmap)
-    sub = [dict(c) for c in cases[:: max(1, len(cases) // (10 if ctx.quick else 40))]]
+    sub = [dict(c) for c in cases[:: max(1, len(cases) // (6 if ctx.quick else 40))]]
     eager = run_cases([dict(c) for c in sub], jit=False)
     ndiff = 0
     for a, b in zip(sub, eager):
@@ -545,6 +549,7 @@ def generate(ctx):
             ndiff += 1
     ctx.tested_not_proved.append(f"eager vs jit+vmap kernel.transition on {len(sub)} cases: {ndiff} differences (tolerance 1e-9)")
     cases += utils_cases(rnd, ctx.quick)
+    common.log(f"[C06] eager re-runs and iwls_utils done at {time.time() - ctx.t0:.0f}s")
     usable = 0
     for c in cases:
         if c["kernel"] == "utils":
@@ -733,7 +738,7 @@ def staged_lemmas(i, c):
     w = {2: 1.0, 3: 2.5}[n]
     out = []
     pre = f"c{i}"
-    out.append((f"{pre}_chol_x", f"{PL} ({ch} {X})", f"{cb}. repeat split; {itv}.", w))
+    out.append((f"{pre}_chol_x", f"{PL} ({ch} {X})", f"{cb}. box_goals ltac:({itv}).", w))
     openL = "intros L HL. open_box HL. decompose [and] HL."
     openLm = "intros L m HL Hm. open_box HL. open_box Hm. decompose [and] HL. decompose [and] Hm."
     p = Fraction(c["p"])
@@ -741,14 +746,14 @@ def staged_lemmas(i, c):
         tolp = qlitR(max(tol_of(v) for v in c["xp"]))
         Q = f"(fun v : vec => vclose {tolp} v {XP})"
         out.append((f"{pre}_draw", f"forall L, {PL} L -> vclose {tolp} (mvn_sample {Z} (mu_of {X} ({sc} {X}) L {S}) (tri_div L {S})) {XP}",
-                    f"{openL} {cb}. repeat split; {itv}.", w))
+                    f"{openL} {cb}. box_goals ltac:({itv}).", w))
         out.append((f"{pre}_proposal", f"vclose {tolp} (iwls_propose_n {sc} {ch} {S} {Z} {X}) {XP}",
                     f"exact (staged_proposal {sc} {ch} {S} {Z} {X} {PL} {Q} {pre}_chol_x {pre}_draw).", 0.1))
-    out.append((f"{pre}_chol_xp", f"{PLp} ({ch} {XP})", f"{cb}. repeat split; {itv}.", w))
-    out.append((f"{pre}_mu_x", f"forall L, {PL} L -> {Pm} (mu_of {X} ({sc} {X}) L {S})", f"{openL} {cb}. repeat split; {itv}.", w))
-    out.append((f"{pre}_mu_xp", f"forall L, {PLp} L -> {Pmp} (mu_of {XP} ({sc} {XP}) L {S})", f"{openL} {cb}. repeat split; {itv}.", w))
-    out.append((f"{pre}_bwd", f"forall L m, {PLp} L -> {Pmp} m -> {Pb} (logq_of {X} m L {S})", f"{openLm} {cb}. split; {itv}.", w))
-    out.append((f"{pre}_fwd", f"forall L m, {PL} L -> {Pm} m -> {Pf} (logq_of {XP} m L {S})", f"{openLm} {cb}. split; {itv}.", w))
+    out.append((f"{pre}_chol_xp", f"{PLp} ({ch} {XP})", f"{cb}. box_goals ltac:({itv}).", w))
+    out.append((f"{pre}_mu_x", f"forall L, {PL} L -> {Pm} (mu_of {X} ({sc} {X}) L {S})", f"{openL} {cb}. box_goals ltac:({itv}).", w))
+    out.append((f"{pre}_mu_xp", f"forall L, {PLp} L -> {Pmp} (mu_of {XP} ({sc} {XP}) L {S})", f"{openL} {cb}. box_goals ltac:({itv}).", w))
+    out.append((f"{pre}_bwd", f"forall L m, {PLp} L -> {Pmp} m -> {Pb} (logq_of {X} m L {S})", f"{openLm} {cb}. box_goals ltac:({itv}).", w))
+    out.append((f"{pre}_fwd", f"forall L m, {PL} L -> {Pm} m -> {Pf} (logq_of {XP} m L {S})", f"{openLm} {cb}. box_goals ltac:({itv}).", w))
     # the two log-densities are only known to +-EPS_Q (relative to their size): the final tolerance follows
     rel = max(1e-6, 40 * float(EPS_Q) * max(1.0, abs(b), abs(f)))
     if p >= 1:
@@ -780,7 +785,7 @@ def lemmas_of(i, c):
             st = f"vclose {qlitR(max(tol_of(v) for v in c['val']))} (solve {L} {x}) {V(c['val'])}"
         else:
             st = f"vclose {qlitR(max(tol_of(v) for v in c['val']))} (mvn_sample {x} {m} {L}) {V(c['val'])}"
-        out.append((f"c{i}_utils", st, f"cbv [{CBV}]. repeat split; {itv}.", cost))
+        out.append((f"c{i}_utils", st, f"cbv [{CBV}]. box_goals ltac:({itv}).", cost))
         return out
     if not c["moved"]:
         return out
@@ -790,7 +795,7 @@ def lemmas_of(i, c):
     base = {1: 0.4, 2: 2.0, 3: 7.0}[n] * (0.4 if c["kernel"] != "iwls" else 1.0)
     l, prop = model_terms(c)
     if prop:
-        out.append((f"c{i}_proposal", prop, f"cbv [{CBV}]. repeat split; {itv}.", base * 0.5))
+        out.append((f"c{i}_proposal", prop, f"cbv [{CBV}]. box_goals ltac:({itv}).", base * 0.5))
     p = Fraction(c["p"])
     if p >= 1:
         tol = Fraction(1, 10 ** 7)
@@ -848,6 +853,10 @@ def diagnose(ctx, path, idxs, cases):
     # cases of this shard that already fail the direct oracle are the disagreeing ones
     bad = [i for i in idxs if oracle(cases[i])]
     if bad:
+        if _DIAG.setdefault("named", 0) < 2:
+            _DIAG["named"] += 1
+            names = [nm for i in bad[:4] for (nm, _, _, _) in lemmas_of(i, cases[i]) if nm.endswith(("_alpha", "_proposal", "_utils"))]
+            ctx.broken.append(f"R-lemmas of oracle-failing cases in {os.path.basename(path)} (model term vs observed value): " + ", ".join(names[:8]))
         return bad
     # otherwise ask Coq which lemmas fail (bounded: every failing shard would double the run time)
     _DIAG["coq_runs"] += 1
